@@ -181,6 +181,10 @@ def _scenarios(prog):
         # fault in a hook of that transition must still end it EXCEPTED, closed, with the stepping returned
         # the pause arrives as a message in the middle of a step (its sender holds the reply future)
         'rpcpause': [{'at': mid, 'act': ['rpc_pause', 'rp']}, {'at': 'q', 'act': ['play']}],
+        # the instance is lost at the first quiescent point and the process goes on in one recreated from a checkpoint: a fault in
+        # the hooks of what follows (the first transition of the new instance included) is handled like in any other
+        'reinc': [{'at': 'q', 'act': ['reincarnate']}],
+        'reinckill': [{'at': 'q', 'act': ['reincarnate']}, {'at': 'q', 'act': ['kill', 'rk']}],
         'fail': [{'at': mid, 'act': ['fail', 'ff']}],
         'failq': [{'at': 'q', 'act': ['fail', 'fq']}],
     }
@@ -275,6 +279,8 @@ def gen_cases(tier, seed):
             for key, n in sorted(counts.items()):
                 point, pos = key.rsplit('/', 1)
                 for occ in range(1, n + 1):
+                    if scen.startswith('reinc') and point == 'init' and occ > 1:
+                        continue  # (init() of the recreated instance: the load raises to whoever loads, i.e. to the harness)
                     cases.append(dict(base, fault=[point, pos, occ]))
                     if point.startswith('on_exit_'):
                         cases.append(dict(base, fault=[point, pos + '+', occ]))
@@ -439,8 +445,8 @@ def run_case(case):
             if (point in entering and pos == 'before') or (point == 'set_status' and X.ctx_hook in entering):
                 # the state was being entered, the future had not been resolved yet: a waiter that got the future before the run is
                 # told the same as everybody else
-                obs['early_future_checks'] = 1
-                if rec.get('early_future') != ['exception', xdesc]:
+                obs['early_future_checks'] = int(rec.get('early_future') is not None)
+                if rec.get('early_future') is not None and rec.get('early_future') != ['exception', xdesc]:  # (None: the instance that handed it out is gone)
                     viol.append(V('early-future-differs', 'early-future-differs:' + sig_tail, 'the future handed out before the run ended %s, the process '
                                   'EXCEPTED with %s' % (rec.get('early_future'), xdesc)))
             if fin['closed'] is not True:
